@@ -42,6 +42,11 @@ void harness(void) {
 		VPOST("C02", same, "ParseIPv6address2: the 16 address bytes equal the value written in the text");
 		VPOST("C02", u.hostText.afterLast == r - 1, "ParseIPv6address2: host text ends in front of ']'");
 		VPOST("C13", g_live == 1, "ParseIPv6address2 allocates nothing itself");
+		/* the may-change set the Marks.* obligations assume for this scanner (M_ParseIPv6address2 = {host end}) */
+		VPOST("C02", u.scheme.first == NULL && u.scheme.afterLast == NULL && u.userInfo.first == NULL && u.userInfo.afterLast == NULL
+			&& u.hostText.first == text && u.portText.first == NULL && u.portText.afterLast == NULL && u.query.first == NULL && u.query.afterLast == NULL
+			&& u.fragment.first == NULL && u.fragment.afterLast == NULL && u.hostData.ipFuture.first == NULL && u.hostData.ipFuture.afterLast == NULL
+			&& u.absolutePath == URI_FALSE, "ParseIPv6address2 changes no recorded mark except the host end");
 	} else {
 		VPOST("C01", st.errorCode == URI_ERROR_SYNTAX && st.errorPos != NULL && st.errorPos >= text && st.errorPos <= text + n,
 			"ParseIPv6address2: syntax error with a position inside the literal");
